@@ -15,7 +15,7 @@ MANIFEST = dict(
     category='model_checking',
     text='TLC exhausts the element-graph design: all reference graphs over 3 elements with up to 3 (thorough 4) attribute/array slots (self reference, mutual cycles, shared children, NULL and stubs inside arrays, empty arrays) x binary v1-v5 and KeyValues2 nested/flat x cull_uuid, and every plain value type as scalar / 1- and 2-element / empty array plus text of three classes in every place text can stand, and the name attribute as an optional member (removed by del/pop/clear, removed and set again behind other attributes, spelled Name; on a lone root, on a root followed by a child with attributes, on the child) x 9 encodings x 3 unicode modes, with the invariants: type codes decode to what was encoded, the element table is a valid listing, the abstract binary file parses back to the graph, the text writer terminates, parse(export(g)) is isomorphic to g keeping exactly the UUIDs the encoding stores, inexpressible combinations are refused. Every one of these transitions is executed on real Element objects; TLC then checks each logged case against the same operators: the element table, type bytes, array counts, reference indexes, values and string table found in the written bytes by an independent reader equal BinFile(g); the top-level elements and id lines of the text equal Kv2Top/Keep; the parsed graph equals ParseBin(bytes) and is isomorphic to g; from_kv1/to_kv1 equal FromKv1/ToKv1 for all 9114 (quick 614) small trees. Seeded random graphs up to 25 elements with all value types far outside the bounds are validated the same way.',
     design_ref='4 (C14)',
-    note='Values are opaque symbols for TLC (the driver maps concrete values to symbols by exact equality; numbers are drawn exactly representable in float32 / 1e-4 time / six decimals so every encoding must return them unchanged). Element types that collide with value-type names and binary v0 are outside the property. Pure-Python tree only.',
+    note='Values are opaque symbols for TLC (the driver maps concrete values to symbols by exact equality; numbers are drawn per encoding: for binary the bounds of each wire type and representable values that are inexact in double arithmetic, found by search (tick counts n with n/10000*10000 one ulp below n, float32 of j/10, float32 extremes, int32 and byte bounds); for text values only the text keeps (six decimals, integers beyond 32 bits, arbitrary doubles where repr is written); builder steps use values exact everywhere). Element types that collide with value-type names and binary v0 are outside the property. Pure-Python tree only.',
 )
 
 FEATURES = ('has_stub', 'scalar14', 'na_strarr', 'na_type', 'esc_aname', 'ncase', 'has_time')
